@@ -161,9 +161,10 @@ theorem principal_node_type_name (env : XPath.Env) (a : Axis) (q : QN) (k : Key)
     (h : nodeTest env a (.name q) k = .ok true) : kindOf env.doc k = principal a := by
   simp only [nodeTest] at h
   split at h
-  · split at h
-    · simp at h
-    · simp only [Except.ok.injEq, Bool.and_eq_true, beq_iff_eq] at h; exact h.1
+  · -- prefixed: the kind is tested before the prefix is looked up
+    split at h
+    · next hk => simp at h
+    · next hk => simpa using hk
   · simp only [Except.ok.injEq, Bool.and_eq_true, beq_iff_eq] at h; exact h.1
 
 theorem principal_is_element_except_attr_ns (a : Axis) (h1 : a ≠ .attribute) (h2 : a ≠ .namespace) :
